@@ -295,6 +295,18 @@ func (a *Analyzer) dynamic(caller *ssa.Function, ci ssa.CallInstruction) []calle
 		}
 	}
 	if len(out) == 0 {
+		// library code: no concrete type may flow to the call under VTA; fall back to the class hierarchy
+		if chaNode := a.P.CHA().Nodes[caller]; chaNode != nil {
+			for _, e := range chaNode.Out {
+				if e.Site != ci || e.Callee == nil || seen[e.Callee.Func] {
+					continue
+				}
+				seen[e.Callee.Func] = true
+				out = append(out, a.static(e.Callee.Func, ci.Common()))
+			}
+		}
+	}
+	if len(out) == 0 {
 		a.Stats.DynUnresolved++
 		c := ci.Common()
 		e := calleeEff{name: "unresolved dynamic call", unknown: "unresolved dynamic call in " + core.Short(caller.String())}
@@ -469,7 +481,7 @@ func ifaceContract(c *ssa.CallCommon) (calleeEff, bool) {
 	// read-only methods
 	case "Equal", "String", "MarshalBinary", "MarshalSize", "Data", "EmbedLen", "PointLen", "ScalarLen", "ByteOrder", "GroupOrder",
 		"IsCanonical", "HasSmallOrder", "IsInCorrectGroup", "Size", "BlockSize", "Len", "Error", "MarshalID", "KeySize", "Order",
-		"CountEnabled", "CountTotal", "Threshold", "NonceSize", "Overhead", "Params", "IsOnCurve", "Check":
+		"CountEnabled", "CountTotal", "Threshold", "NonceSize", "Overhead", "Params", "IsOnCurve", "Check", "ValidatePairing":
 		readAll()
 		retFresh()
 	case "Clone", "Point", "Scalar", "Hash", "XOF", "RandomStream", "G1", "G2", "GT", "New", "Pair":
